@@ -243,6 +243,9 @@ class ContinuousCarver(BaseCarver):
         X_dev: DataFrame = None,
         y_dev: Series = None,
     ) -> None:
+        # checking for previous fits before modifying any attribute
+        self._check_is_not_fitted()
+
         # preparing datasets and checking for wrong values
         x_copy, x_dev_copy = self._prepare_data(X, y, X_dev, y_dev)
 
